@@ -52,9 +52,9 @@ pub fn run(ctx: &Ctx) -> Report {
     let mk = |n: u64, pre: Option<u32>| World { append: true, trig: Trig::Size(n), roller: fw.clone(), pre, sizes: vec![], multibyte: false, restart: false };
     let b = ctx.tier.pick(2usize, 3usize);
     let hs = vec![
-        (RSched { world: mk(30, None), threads: 2, per_thread: 2, size: 24, chunks: 2 }, b),
-        (RSched { world: mk(24, Some(10)), threads: 2, per_thread: 2, size: 24, chunks: 1 }, b),
-        (RSched { world: mk(1100, None), threads: 2, per_thread: 2, size: 1500, chunks: 2 }, 2),
+        (RSched { world: mk(30, None), threads: 2, per_thread: 2, size: 24, chunks: 2, restart_after: None }, b),
+        (RSched { world: mk(24, Some(10)), threads: 2, per_thread: 2, size: 24, chunks: 1, restart_after: None }, b),
+        (RSched { world: mk(1100, None), threads: 2, per_thread: 2, size: 1500, chunks: 2, restart_after: None }, 2),
     ];
     run_scheds(ctx, &mut rep, &hs);
     short_writes(&mut rep);
